@@ -30,6 +30,7 @@ import (
 
 	"verif/core"
 	"verif/gjs"
+	"verif/props/witness"
 	"verif/reg"
 	"verif/tlcx"
 )
@@ -754,6 +755,8 @@ func Run(c *core.Ctx, pool *gjs.Pool) {
 	if ck.ordersDrift+ck.supersets > 0 {
 		fmt.Printf("MODEL-DRIFT: %d programs whose real instance order is none of the model's final orders, %d whose real set differs from the model's fixpoint without missing a needed instance; e.g. %v\n", ck.ordersDrift, ck.supersets, ck.driftSamples)
 	}
+	witness.Run(c, pool, witnesses)
+	c.Phase("witnesses")
 	c.Set("rule", "TLC builds programs of Instances.tla choice by choice: every program of the exhaustive family (coverage.exhaustive_family) with every iteration order of Collector.Finish is model-checked; programs over the full bounds (<=3 declarations, <=2 type parameters, <=2 uses per body, packages a b c + main, type expressions nested <=2) are selected by VERIF_SEED digit strings, model-checked with every iteration order, rendered as Go modules and run; distinct = distinct programs that were compiled, run and compared (each contains at least one generic instantiation reached through generic code or a root, so every one is non-trivial); exhaustive refers to the exhaustive family and to the iteration orders of every program")
 	for i, r := range uniq {
 		if i%(len(uniq)/4+1) == 0 {
